@@ -411,6 +411,121 @@ let run_patch (args : sx list) : sx =
          L [A "wf"; sx_bool (wf_json d)]]
   | _ -> failwith "patch: bad args"
 
+(* ---------- JSONPath queries ---------------------------------------------- *)
+exception Unsupported_case of string
+
+let re_full_oracle (p : ustr) (fl : reflags) (s : ustr) : bool option =
+  match regex_fullmatch p fl.f_i fl.f_s s with
+  | Some r -> r
+  | None -> raise (Unsupported_case "regex")
+let re_search_oracle (p : ustr) (s : ustr) : bool option =
+  match regex_search p s with
+  | Some r -> r
+  | None -> raise (Unsupported_case "regex")
+
+let binop_of (a : string) : binop =
+  match a with
+  | "&&" -> BAnd | "||" -> BOr | "==" -> BEq | "!=" -> BNe | "<>" -> BLg | "<" -> BLt | ">" -> BGt
+  | "<=" -> BLe | ">=" -> BGe | "in" -> BIn | "contains" -> BContains | "=~" -> BRe
+  | _ -> failwith ("bad operator " ^ a)
+
+let optz_of_sx (x : sx) : z option = match x with A "none" -> None | v -> Some (atom_z v)
+
+let rec fexpr_of_sx (x : sx) : fexpr =
+  match x with
+  | A "nil" -> FNil
+  | A "undef" -> FUndefined
+  | A "key" -> FKey
+  | L [A "lit"; j] ->
+      (match json_of_sx j with
+       | JNull -> FNil
+       | JBool b -> FBool b
+       | JNum n -> if n.n_float then FFloat n else FInt n.n_num
+       | JStr s -> FStr s
+       | _ -> failwith "bad literal")
+  | L [A "re"; p; A fl] ->
+      let has c = String.contains fl c in
+      FRegex (ustr_of_sx p, { f_a = has 'a'; f_i = has 'i'; f_m = has 'm'; f_s = has 's' })
+  | L [A "re"; p] -> FRegex (ustr_of_sx p, { f_a = false; f_i = false; f_m = false; f_s = false })
+  | L (A "list" :: items) -> FList (fexprs_of (List.map fexpr_of_sx items))
+  | L [A "not"; e] -> FNot (fexpr_of_sx e)
+  | L [A "op"; A o; l; r] -> FInfix (fexpr_of_sx l, binop_of o, fexpr_of_sx r)
+  | L (A "self" :: segs) -> FSelf (segs_of (List.map segment_of_sx segs))
+  | L (A "root" :: fake :: segs) -> FRoot (atom_bool fake, segs_of (List.map segment_of_sx segs))
+  | L (A "ctx" :: segs) -> FCtx (segs_of (List.map segment_of_sx segs))
+  | L (A "fn" :: name :: args) -> FFunc (ustr_of_sx name, fexprs_of (List.map fexpr_of_sx args))
+  | _ -> failwith "bad filter expression"
+and selector_of_sx (x : sx) : selector =
+  match x with
+  | L [A "name"; s] -> SName (ustr_of_sx s)
+  | L [A "idx"; i] -> SIndex (atom_z i)
+  | L [A "slice"; a; b; c] -> SSlice (optz_of_sx a, optz_of_sx b, optz_of_sx c)
+  | A "wild" -> SWild
+  | A "keys" -> SKeys
+  | L [A "filter"; e] -> SFilter (fexpr_of_sx e)
+  | _ -> failwith "bad selector"
+and segment_of_sx (x : sx) : segment =
+  match x with
+  | L [A "sel"; s] -> GSel (selector_of_sx s)
+  | A "desc" -> GDescent
+  | L (A "list" :: items) -> GList (sels_of (List.map selector_of_sx items))
+  | _ -> failwith "bad segment"
+
+let jpath_of_sx (x : sx) : jpath =
+  match x with
+  | L (A "path" :: fake :: segs) -> { p_fake = atom_bool fake; p_segs = segs_of (List.map segment_of_sx segs) }
+  | _ -> failwith "bad path"
+
+let query_of_sx (x : sx) : query =
+  match x with
+  | L (A "query" :: first :: rest) ->
+      { q_first = jpath_of_sx first;
+        q_rest = List.map (fun r -> match r with
+                                    | L [A "union"; p] -> (OpUnion, jpath_of_sx p)
+                                    | L [A "inter"; p] -> (OpIntersect, jpath_of_sx p)
+                                    | _ -> failwith "bad compound") rest }
+  | _ -> failwith "bad query"
+
+let sx_jmatch (m : jmatch) : sx = L [sx_loc m.m_parts; sx_ustr m.m_path; sx_json m.m_val]
+let sx_node ((l, v) : loc * json) : sx = L [sx_loc l; sx_json v]
+
+let env_with (keys : ustr) : env = { default_env with e_keys = keys }
+
+(* (eval <query> <doc> <ctx>) : every entry point of the model, and the RFC nodelist for a simple query *)
+let run_eval (args : sx list) : sx =
+  match args with
+  | [q; doc; ctx] ->
+      let q = query_of_sx q in
+      let d = json_of_sx doc and c = json_of_sx ctx in
+      let e = default_env in
+      (try
+         let fi = compound_finditer e re_full_oracle re_search_oracle q d c in
+         let fa = compound_findall e re_full_oracle re_search_oracle q d c in
+         let spec =
+           match q.q_rest with
+           | [] when not q.q_first.p_fake -> L [A "nodes"; L (List.map sx_node (nodelist re_full_oracle re_search_oracle q.q_first.p_segs d))]
+           | _ -> A "na" in
+         L [A "ok"; sx_result (fun ms -> L (List.map sx_jmatch ms)) fi;
+            sx_result (fun vs -> L (List.map sx_json vs)) fa; spec; L [A "wf"; sx_bool (wf_json d)]]
+       with Unsupported_case w -> L [A "unsupported"; A w])
+  | _ -> failwith "eval: bad args"
+
+(* (compare <left> <op> <right>) with operands: nothing | (val json) ; model on every run-time form *)
+let run_compare (args : sx list) : sx =
+  match args with
+  | [l; A o; r] ->
+      let op = binop_of o in
+      let sv x = match x with A "nothing" -> None | L [A "val"; j] -> Some (json_of_sx j) | _ -> failwith "operand" in
+      let forms x =
+        match sv x with
+        | None -> [VUndef; VNodes []]
+        | Some j -> [VVal j] in
+      let results =
+        List.concat (List.map (fun a -> List.map (fun b ->
+          filter_compare re_full_oracle a op b) (forms r)) (forms l)) in
+      L [A "ok"; L (List.map sx_bool results); sx_bool (rfc_compare (sv l) op (sv r))]
+  | _ -> failwith "compare: bad args"
+
 (* ---------- dispatch ---------------------------------------------------- *)
 let dispatch (x : sx) : sx =
   match x with
@@ -420,6 +535,8 @@ let dispatch (x : sx) : sx =
   | L (A "ptr-alg" :: args) -> run_ptr_alg args
   | L (A "rel" :: args) -> run_rel args
   | L (A "patch" :: args) -> run_patch args
+  | L (A "eval" :: args) -> run_eval args
+  | L (A "compare" :: args) -> run_compare args
   | _ -> failwith "unknown case kind"
 
 let () =
